@@ -22,7 +22,7 @@ class Edge:
     def __init__(self, src, dst, ctrl=None, select=None, guard=None, sync=None, assign=None, prob=None, order=0):
         self.src, self.dst, self.ctrl = src, dst, ctrl       # ("L", i) / ("B", j)
         self.select, self.guard, self.sync, self.assign, self.prob, self.order = select, guard, sync, assign, prob, order
-        self.guardstyle = 0  # 1: modulo operators in the guard text; 2/3: the trivially true guards `true` and `1`
+        self.guardstyle = 0  # 1: modulo operators in the guard text; 2/3: the trivially true guards `true` and `1`; 4: nested quantifiers
         self.selstyle = 0    # 0: `s : int[0,K]`   1: two binders   2: the binder shadows the global g2   3: ... the global clock gx
 
 
@@ -84,6 +84,10 @@ def t_guard(k, style=0):
     if style == 1:    # modulo with operands whose names start like printf conversions: hazardous for anything that formats label text
         return ("g1 % ga == {0} && g2 % gc != 1".format(k % 7),
                 "(AND (EQ (MOD (IDENTIFIER g1) (IDENTIFIER ga)) (CONSTANT:INT %d)) (NEQ (MOD (IDENTIFIER g2) (IDENTIFIER gc)) (CONSTANT:INT 1)))" % (k % 7))
+    if style == 4:    # nested quantifiers; the outer binder is named like the global that the update of the same edge writes
+        return ("ga >= 0 && forall (g1 : int[0,1]) exists (qj : int[0,1]) (ga + g1 > qj - %d)" % k,
+                "(AND (GE (IDENTIFIER ga) (CONSTANT:INT 0)) (FORALL (IDENTIFIER g1) (EXISTS (IDENTIFIER qj) (GT (PLUS (IDENTIFIER ga) (IDENTIFIER g1)) "
+                "(MINUS (IDENTIFIER qj) (CONSTANT:INT %d))))))" % k)
     if k % 2 == 0:   # every other guard needs XML escaping (<, &&)
         return ("g1 == %d && g2 < %d" % (k, k),
                 "(AND (EQ (IDENTIFIER g1) (CONSTANT:INT %d)) (LT (IDENTIFIER g2) (CONSTANT:INT %d)))" % (k, k))
@@ -104,6 +108,10 @@ def t_inv(k, style=0):
     if style == 4:    # ... and before one
         return ("(forall (qi : int[0,1]) gxs[qi]' == 0) && gx <= %d" % k,
                 "(AND (AND (CONSTANT:INT 1) %s) %s)" % (fa % rate0, le("gx", k)))
+    if style == 5:    # nested quantifiers whose outer binder is named like a global that later labels use
+        return ("forall (g1 : int[0,1]) forall (qj : int[0,1]) gys[g1] <= %d + qj" % k,
+                "(AND (CONSTANT:INT 1) (FORALL (IDENTIFIER g1) (FORALL (IDENTIFIER qj) (LE (ARRAY (IDENTIFIER gys) (IDENTIFIER g1)) "
+                "(PLUS (CONSTANT:INT %d) (IDENTIFIER qj))))))" % k)
     if style == 2:
         return ("g1 <= 1 && gx <= 11 && g2 <= %d" % k,
                 "(AND (CONSTANT:INT 1) (AND (AND %s %s) %s))" % (le("g1", 1), le("gx", 11), le("g2", k)))
@@ -524,7 +532,7 @@ def build(choose, common=False, bp_base=True):
                 kind = (["", "U", "C"] if li != 2 else ["C", "", "U"])[choose(3, "%s.L%d.kind" % (t.name, li))]
                 l.inv, l.rate, l.kind = inv, rate, kind
                 if inv is not None:
-                    l.invstyle = choose(5, "%s.L%d.invstyle" % (t.name, li))
+                    l.invstyle = choose(6, "%s.L%d.invstyle" % (t.name, li))
                 if inv is not None and rate is not None:
                     l.rate_first = bool(choose(2, "%s.L%d.ratefirst" % (t.name, li)))
                 # (urgent and committed locations may carry an invariant and a rate like any other location)
@@ -584,7 +592,7 @@ def build(choose, common=False, bp_base=True):
                     e.selstyle = choose(7, tag + ".selstyle")
                 if on[1]:
                     e.guard = k + 101
-                    e.guardstyle = choose(4, tag + ".guardstyle")
+                    e.guardstyle = choose(5, tag + ".guardstyle")
                 if on[2]:
                     e.sync = ["c!", "c?", "bc!"][choose(3, tag + ".chan")]
                 if on[3]:
